@@ -75,12 +75,20 @@ def strategy(draw):
                                                     min_size=naz, max_size=naz, unique=True)))
         nwins = [g["nwin"] for g in case["groups"]]
     ops = []
+    if draw(gen.chance(3)):
+        # a tuning loop: the same search range twice, one kwargs dict edited in place in between
+        lo, hi = draw(st.one_of(st.none(), gen.floats(0.05, 3.0))), draw(st.one_of(st.none(), gen.floats(3.0, 60.0)))
+        k1, k2 = draw(st.sampled_from([({"prominence": 0.05}, {"prominence": 2.5}), ({"prominence": 3.0}, {"prominence": 0.1}), ({"height": 1.2}, {"height": 3.5}),
+                                       ({"distance": 1}, {"prominence": 1.5}), ({"width": 1}, {"width": 4})]))
+        ops.append(dict(op="range", lo=lo, hi=hi, as_list=False, kw=k1, shared=True, same_range=False))
+        ops.append(dict(op="range", lo=lo, hi=hi, as_list=False, kw=k2, shared=True, same_range=True))
     for _ in range(draw(st.integers(0, 5))):
         o = draw(gen.choice(["range", "fdwr", "manual", "range"]))
         if o == "range":
             ops.append(dict(op="range", lo=draw(st.one_of(st.none(), gen.floats(0.05, 3.0))), hi=draw(st.one_of(st.none(), gen.floats(3.0, 60.0))),
                             as_list=draw(st.booleans()),
-                            kw=draw(st.sampled_from([None, None, {}, {"prominence": 0.5}, {"prominence": 2.0}, {"distance": 4}, {"height": 2.5}]))))
+                            kw=draw(st.sampled_from([None, None, {}, {"prominence": 0.5}, {"prominence": 2.0}, {"distance": 4}, {"height": 2.5}])),
+                            shared=draw(st.booleans()), same_range=draw(gen.chance(3))))
         elif o == "fdwr":
             ops.append(dict(op="fdwr", n=draw(st.sampled_from([1.0, 1.5, 2.0, 2.5])), dist_fn=draw(st.sampled_from(DISTS)), dist_mc=draw(st.sampled_from(DISTS)),
                             lo=draw(st.one_of(st.none(), gen.floats(0.05, 3.0))), hi=draw(st.one_of(st.none(), gen.floats(3.0, 60.0)))))
@@ -159,16 +167,27 @@ def check_case(case):
     kind = case["kind"]
     labels = [kind, case["source"]]
     members = _members(hv, obj)
+    shared_kw = {}
+    last_range = (None, None)
     for op in case["ops"]:
         if op["op"] == "range":
-            rng = [op["lo"], op["hi"]] if op["as_list"] else (op["lo"], op["hi"])
-            sut(obj.update_peaks_bounded, rng, op.get("kw"), what="update_peaks_bounded")
+            lo, hi = (last_range if op.get("same_range") else (op["lo"], op["hi"]))
+            last_range = (lo, hi)
+            rng = [lo, hi] if op["as_list"] else (lo, hi)
+            kw = op.get("kw")
+            if kw and op.get("shared"):
+                shared_kw.clear()
+                shared_kw.update(kw)          # one dict object re-used and edited in place between calls
+                kw = shared_kw
+                labels.append("same-kwargs-dict-reused")
+            sut(obj.update_peaks_bounded, rng, kw, what="update_peaks_bounded")
             if op.get("kw"):
                 labels.append("find-peaks-kwargs")
         elif op["op"] == "fdwr":
             if kind == "diffuse_field":
                 continue
             try:
+                last_range = (op["lo"], op["hi"])
                 sut(hv.frequency_domain_window_rejection, obj, n=op["n"], distribution_fn=op["dist_fn"], distribution_mc=op["dist_mc"],
                     search_range_in_hz=(op["lo"], op["hi"]), allow=(ValueError,), what="frequency_domain_window_rejection")
             except Refusal:
